@@ -1,4 +1,5 @@
 import MJ.Proofs.CmpNum
+import MJ.Proofs.CmpNumEq
 import MJ.Proofs.CmpF64Order
 import MJ.Proofs.CollGroup
 import MJ.Proofs.CollRuns
@@ -13,7 +14,7 @@ Property theorems only (helper lemmas live in `MJ/Proofs/Cmp*.lean`, `MJ/Proofs/
 * `Coll.*` are the models of the collection filters over an arbitrary item type and comparison.
 -/
 namespace MJ.C07
-open MJ MJ.Val MJ.Cmp MJ.F64 MJ.CmpKey MJ.CmpNum MJ.Coll Std
+open MJ MJ.Val MJ.Cmp MJ.F64 MJ.CmpKey MJ.CmpNum MJ.CmpEq MJ.Coll Std
 
 /-! ## the order -/
 
@@ -60,6 +61,61 @@ theorem cmp_no_unreachable (a b : V) (h : a.rank = b.rank) : cls a = cls b :=
 /-- the float/float part is exact on bit patterns (all patterns, incl. ±0, ±inf, NaN) -/
 theorem cmp_f64_refines_key (x y : Nat) : cmpF64 x y = compare (F64.key x) (F64.key y) :=
   cmpF64_eq x y
+
+/-! ## `==`, the order and the hash agree -/
+
+/-- every number inside is an integer within the range of its Rust representation -/
+abbrev IntOnly (v : V) : Prop := AllNum IntWF v
+/-- every map inside holds its keys in strictly increasing order (a `BTreeMap`'s iteration order) -/
+abbrev SortedMaps (v : V) : Prop := allV mapSorted v = true
+
+theorem numSpec_intWF : NumSpec IntWF := fun x y hx hy => numSpec_int x y hx.1 hy.1
+
+/-- Full-strength statement (stage 1: numbers are integers): `==` holds exactly when the order says
+    `Equal`, and `==` values feed the hasher the same items. -/
+def C07_full : Prop :=
+  ∀ a b : V, IntOnly a → IntOnly b → SortedMaps a → SortedMaps b →
+    (eqV .btree a b = true ↔ cmpV a b = .eq) ∧ (eqV .btree a b = true → hkey a = hkey b)
+
+/-- The full statement is false on the current code: `true == 1`, yet `cmp(true, 1) = Less` and the
+    two feed the hasher different items (a known finding: both behaviours are pinned by the
+    existing test suite). -/
+theorem C07_counterexample : ¬ C07_full := by
+  intro h
+  have h1 := h (.bool true) (.num (.i64 1))
+    (by simp [AllNum]) (by simp [AllNum, IntWF, N.isFloat, N.WF, i64Min, i64Max])
+    (by decide) (by decide)
+  have he : eqV .btree (.bool true) (.num (.i64 1)) = true := by
+    rw [eqV]; decide
+  have hc : cmpV (.bool true) (.num (.i64 1)) = .lt := by decide
+  rw [h1.1.mp he] at hc
+  cases hc
+
+/-- … and true outside the excluded region (`noClash`: no bool inside one value facing a number
+    inside the other) -/
+theorem C07_partial (a b : V) (ha : IntOnly a) (hb : IntOnly b) (sa : SortedMaps a) (sb : SortedMaps b)
+    (hc : noClash a b = true) :
+    (eqV .btree a b = true ↔ cmpV a b = .eq) ∧ (eqV .btree a b = true → hkey a = hkey b) :=
+  eq_main numSpec_intWF eqSpec_int hashSpec_int _ a b rfl ⟨ha, hb, sa, sb, hc⟩
+
+/-- `a == b` exactly when `a.cmp(b) == Equal` -/
+theorem eq_iff_cmp_eq_nofloat (a b : V) (ha : IntOnly a) (hb : IntOnly b) (sa : SortedMaps a)
+    (sb : SortedMaps b) (hc : noClash a b = true) : eqV .btree a b = true ↔ cmpV a b = .eq :=
+  (C07_partial a b ha hb sa sb hc).1
+
+/-- equal values hash identically: the same items are fed to the hasher -/
+theorem eq_hash_nofloat (a b : V) (ha : IntOnly a) (hb : IntOnly b) (sa : SortedMaps a)
+    (sb : SortedMaps b) (hc : noClash a b = true) (he : eqV .btree a b = true) : hkey a = hkey b :=
+  (C07_partial a b ha hb sa sb hc).2 he
+
+/-- the hypotheses are satisfiable by a non-trivial pair: a list holding a map with two keys, a
+    `u64` facing an `i128`, and a nested tuple -/
+example :
+    let a : V := .seq [.map [(.str [97], .num (.u64 1)), (.str [98], .tuple [.none])], .num (.i64 (-3))]
+    let b : V := .iter [.map [(.str [97], .num (.i128 1)), (.str [98], .tuple [.none])], .num (.i128 (-3))]
+    IntOnly a ∧ IntOnly b ∧ SortedMaps a ∧ SortedMaps b ∧ noClash a b = true := by
+  refine ⟨?_, ?_, by decide, by decide, by decide⟩ <;>
+    simp [AllNum, AllNumL, AllNumPL, IntWF, N.isFloat, N.WF, i64Min, i64Max, u64Max, i128Min, i128Max]
 
 /-! ## the collection filters, for every input list and every total preorder `cmp` -/
 
